@@ -1838,6 +1838,244 @@ def compare_matrix_priors(ctx, recs, replies):
                              f"{got!r}; Π L_ii^(n−i+2(η−1)) gives {want!r}", rp)
 
 
+# ------------------------------------------------------------------ (4e) scalar hyper-parameters on multi-element values
+
+def sweep_prior_broadcast(ctx, rng):
+    """Every scalar prior family with SCALAR hyper-parameters evaluated on values with d > 1 trailing elements (ARD) and
+    batch dimensions: the log density is that of the product of the one-dimensional densities (theorems
+    `gen_smoothed_box_broadcast`, `prior_normalised_broadcast` for the regenerated SmoothedBox)."""
+    import torch
+    import gpytorch
+    lean_lines, lean_recs = [], []
+    fams = _prior_families()
+    K = gpytorch.kernels
+    reps = 2 if ctx.quick else 10
+    for fname, fam in fams.items():
+        for rep in range(reps):
+            h = fam["draw"](rng)
+            d = rng.choice([2, 3, 5])
+            shape = rng.choice([(d,), (1, d), (2, 1, d), (3, d)])
+            n = 1
+            for z in shape:
+                n *= z
+            vals = [float(fam["point"](rng, h)) for _ in range(n)]
+            x = torch.tensor(vals, dtype=torch.float64).reshape(shape)
+            pr = fam["build"](h)
+            rp = {"kind": "prior-broadcast", "prior": fname, "h": h, "shape": list(shape), "values": vals}
+            ctx.case(f"PB:{fname}:shape{len(shape)}d{d}", sample={"prior": fname, "h": h, "shape": list(shape)})
+            ok = run_prior_broadcast_case(ctx, fname, h, list(shape), vals)
+            if ok and fname == "SmoothedBoxPrior":
+                lp = pr.log_prob(x).reshape(-1).tolist()
+                rows = x.reshape(-1, d).tolist()
+                for row, got in zip(rows, lp):
+                    lean_lines.append(f"P sboxvec {bits(h[0])} {bits(h[1])} {bits(h[2])} " + " ".join(bits(z) for z in row))
+                    lean_recs.append(("SmoothedBoxPrior", got, dict(rp, row=row)))
+            # the same through a registration on an ARD / batched kernel
+            if fname not in ("UniformPrior",):
+                bs = rng.choice([(), (2,)])
+                with warnings.catch_warnings():
+                    warnings.simplefilter("ignore")
+                    k = K.RBFKernel(ard_num_dims=d, batch_shape=torch.Size(bs), lengthscale_prior=fam["build"](h)).double()
+                ls = torch.tensor([abs(float(fam["point"](rng, h))) + 1e-3 for _ in range(d * (2 if bs else 1))],
+                                  dtype=torch.float64).reshape(*bs, 1, d)
+                try:
+                    k.lengthscale = ls
+                except Exception:
+                    continue
+                ctx.case(f"PB:{fname}:registered:ard{d}:batch{len(bs)}")
+                tot = sum(p_.log_prob(cl(m_)).sum().item() for _, m_, p_, cl, _ in k.named_priors())
+                want = sum(float(fam["ref"](h, z)) for z in k.lengthscale.detach().reshape(-1).tolist())
+                if not abs(tot - want) <= 1e-9 * (1 + abs(want)):
+                    ctx.fail(f"prior:{fname}/broadcast-product-density", f"{fname}{tuple(h)} registered on an ARD lengthscale of shape "
+                             f"{list(ls.shape)}: Σ log_prob(closure(module)) = {tot!r}; the product of the {ls.numel()} one-dimensional "
+                             f"densities gives {want!r}", dict(rp, registered=True, lengthscale=ls.reshape(-1).tolist(), batch=list(bs)))
+    return lean_lines, lean_recs
+
+
+def run_prior_broadcast_case(ctx, fname, h, shape, vals):
+    import torch
+    fam = _prior_families()[fname]
+    pr = fam["build"](h)
+    x = torch.tensor(vals, dtype=torch.float64).reshape(shape)
+    lp = pr.log_prob(x)
+    ref = torch.tensor([float(fam["ref"](h, z)) for z in vals], dtype=torch.float64).reshape(shape)
+    rp = {"kind": "prior-broadcast", "prior": fname, "h": h, "shape": list(shape), "values": vals}
+    if tuple(lp.shape) == tuple(shape):
+        good = torch.allclose(lp, ref, rtol=1e-9, atol=1e-10)
+    elif tuple(lp.shape) == tuple(shape[:-1]):
+        good = torch.allclose(lp, ref.sum(-1), rtol=1e-9, atol=1e-10)      # the family reduces over the event dimension
+    else:
+        good = False
+    if not good or not abs(lp.sum().item() - ref.sum().item()) <= 1e-9 * (1 + abs(ref.sum().item())):
+        ctx.fail(f"prior:{fname}/broadcast-product-density", f"{fname}{tuple(h)} (scalar hyper-parameters) on a value of shape {list(shape)}: "
+                 f"log_prob = {lp.reshape(-1)[:4].tolist()} (shape {list(lp.shape)}), total {lp.sum().item()!r}; the product of the "
+                 f"{len(vals)} one-dimensional densities has log {ref.sum().item()!r}", rp)
+        return False
+    return True
+
+
+# ------------------------------------------------------------------ (4f) priors registered by parameter name, through copies
+
+def _copy_scenarios():
+    """name -> builder(prior) -> (root, dotted path of the module owning the registration, prior name).  All registrations
+    use the string form `register_prior(name, prior, "param")` (user modules and the library classes that use it)."""
+    import torch
+    import gpytorch
+    K, L, M = gpytorch.kernels, gpytorch.likelihoods, gpytorch.means
+
+    class _User(gpytorch.Module):
+        def __init__(self, prior):
+            super().__init__()
+            self.register_parameter("foo", torch.nn.Parameter(torch.tensor([0.7, 1.1], dtype=torch.float64)))
+            self.register_prior("foo_prior", prior, "foo")
+
+    def kernel_named(prior):
+        k = K.RBFKernel()
+        k.register_prior("ls_prior", prior, "lengthscale")      # name of a constrained public property
+        return k, "", "ls_prior"
+
+    def nested(prior):
+        k = K.RBFKernel()
+        k.register_prior("ls_prior", prior, "lengthscale")
+        return K.ScaleKernel(k), "base_kernel", "ls_prior"
+
+    class _GP(gpytorch.models.ExactGP):
+        def __init__(self, covar):
+            x = torch.linspace(0, 1, 5, dtype=torch.float64).unsqueeze(-1)
+            super().__init__(x, torch.sin(3 * x.squeeze(-1)), L.GaussianLikelihood())
+            self.mean_module = M.ZeroMean()
+            self.covar_module = covar
+
+        def forward(self, x):
+            return gpytorch.distributions.MultivariateNormal(self.mean_module(x), self.covar_module(x))
+
+    def model(prior):
+        k = K.MaternKernel()
+        k.register_prior("ls_prior", prior, "lengthscale")
+        return _GP(K.ScaleKernel(k)), "covar_module.base_kernel", "ls_prior"
+
+    def latent(prior):
+        from gpytorch.models.gplvm.latent_variable import MAPLatentVariable
+        return MAPLatentVariable(3, 2, torch.nn.Parameter(torch.full((3, 2), 0.6, dtype=torch.float64)), prior), "", "prior_x"
+    return {
+        "user-module(parameter)": lambda p: (_User(p), "", "foo_prior"),
+        "RBFKernel(property name)": kernel_named,
+        "ScaleKernel(RBFKernel(property name))": nested,
+        "ExactGP(Scale(Matern(property name)))": model,
+        "ConstantMeanGrad(prior=)": lambda p: (M.ConstantMeanGrad(prior=p), "", "mean_prior"),
+        "ConstantMeanGradGrad(prior=)": lambda p: (M.ConstantMeanGradGrad(prior=p), "", "mean_prior"),
+        "SoftmaxLikelihood(mixing_weights_prior=)": lambda p: (L.SoftmaxLikelihood(num_features=3, num_classes=2, mixing_weights_prior=p),
+                                                              "", "mixing_weights_prior"),
+        "MAPLatentVariable(prior_x)": latent,
+    }
+
+
+COPY_HOWS = ["deepcopy", "to_random_module", "pickle", "get_fantasy_model"]
+
+
+def run_prior_copy_case(ctx, sname, how, a, b, v_orig, v_copy, seed):
+    """build -> copy -> change the copy (setting closure, sample_from_prior) / change the original: the prior term and the
+    closures of each object follow only its own module."""
+    import copy
+    import pickle
+    import scipy.stats as st
+    import torch
+    from gpytorch import priors as P
+    mk = _copy_scenarios()[sname]
+    with warnings.catch_warnings():
+        warnings.simplefilter("ignore")
+        root, mpath, pname = mk(P.GammaPrior(a, b) if "Mean" not in sname and "Softmax" not in sname and "Latent" not in sname
+                                else P.NormalPrior(a, b))
+    root = root.double()
+    gamma = isinstance(getattr(_get_path(root, mpath) if mpath else root, pname), P.GammaPrior)
+    ref = (lambda z: st.gamma.logpdf(z, a, scale=1 / b)) if gamma else (lambda z: st.norm.logpdf(z, a, b))
+    rp = {"kind": "prior-copy", "scenario": sname, "how": how, "a": a, "b": b, "v_orig": v_orig, "v_copy": v_copy, "seed": seed}
+    key = f"prior-copy:{sname}:{how}"
+    owner = lambda r: (_get_path(r, mpath) if mpath else r)
+    reg = lambda r: owner(r)._priors[pname]                      # (prior, closure, setting closure)
+    read = lambda r: reg(r)[1](owner(r)).detach().clone()
+    term = lambda r: reg(r)[0].log_prob(reg(r)[1](owner(r))).sum().item()
+    want = lambda r, v: float(ref(v)) * read(r).numel()
+    full = lambda r, v: torch.full_like(read(r), v)
+    reg(root)[2](owner(root), full(root, v_orig))
+    if how == "deepcopy":
+        cp = copy.deepcopy(root)
+    elif how == "to_random_module":
+        cp = root.to_random_module()
+    elif how == "pickle":
+        try:
+            cp = pickle.loads(pickle.dumps(root))
+        except Exception:
+            ctx.count("prior_copy_unpicklable")       # closures generated inside register_prior (C18 known finding)
+            return True
+    else:
+        if not hasattr(root, "get_fantasy_model"):
+            return True
+        root.eval()
+        with torch.no_grad():
+            root(torch.tensor([[0.3]], dtype=torch.float64))
+            cp = root.get_fantasy_model(torch.tensor([[0.5]], dtype=torch.float64), torch.tensor([0.1], dtype=torch.float64))
+
+    def both(stage, vo, vc):
+        for who, r, v in (("original", root, vo), ("copy", cp, vc)):
+            got_v, got_t = read(r), term(r)
+            if not torch.allclose(got_v, full(r, v), rtol=1e-9, atol=1e-12):
+                ctx.fail(key, f"{sname} / {how} / {stage}: the closure of `{pname}` called with the {who} returns {got_v.flatten()[:3].tolist()}; "
+                         f"the {who}'s parameter is {v!r} (original {vo!r}, copy {vc!r})", rp)
+                return False
+            if not abs(got_t - want(r, v)) <= 1e-8 * (1 + abs(want(r, v))):
+                ctx.fail(key, f"{sname} / {how} / {stage}: the prior term of the {who} is {got_t!r}; documented density at its own value {v!r} "
+                         f"gives {want(r, v)!r} (original {vo!r}, copy {vc!r})", rp)
+                return False
+            for nm, m_, p_, cl, scl in r.named_priors():
+                if p_ is reg(r)[0] and m_ is not owner(r):
+                    ctx.fail(key, f"{sname} / {how}: named_priors() of the {who} yields a module that is not its own sub-module", rp)
+                    return False
+        return True
+    if not both("after the copy", v_orig, v_orig):
+        return False
+    # change the copy through its own setting closure
+    reg(cp)[2](owner(cp), full(cp, v_copy))
+    if not both("after setting the copy", v_orig, v_copy):
+        return False
+    # sample_from_prior on the copy: the copy reads the drawn sample, the original is untouched
+    torch.manual_seed(seed)
+    expect = reg(cp)[0].sample()
+    torch.manual_seed(seed)
+    owner(cp).sample_from_prior(pname)
+    got_c, got_o = read(cp), read(root)
+    exp_b = expect.expand_as(got_c) if expect.numel() == 1 or expect.shape == got_c.shape else expect
+    if exp_b.shape != got_c.shape or not torch.allclose(got_c, exp_b.to(got_c), rtol=1e-9, atol=1e-12) \
+            or not torch.allclose(got_o, full(root, v_orig), rtol=1e-9, atol=1e-12):
+        ctx.fail(key, f"{sname} / {how}: copy.sample_from_prior(`{pname}`) drew {expect.flatten()[:2].tolist()}; the copy reads "
+                 f"{got_c.flatten()[:2].tolist()}, the original reads {got_o.flatten()[:2].tolist()} (was {v_orig!r})", rp)
+        return False
+    # and the other way round: changing the original does not move the copy
+    before = read(cp)
+    reg(root)[2](owner(root), full(root, v_copy * 0.5 + 0.1))
+    if not torch.equal(read(cp), before):
+        ctx.fail(key, f"{sname} / {how}: setting the ORIGINAL through its setting closure moved the copy", rp)
+        return False
+    return True
+
+
+def sweep_prior_copies(ctx, rng):
+    reps = 1 if ctx.quick else 5
+    for sname in _copy_scenarios():
+        for how in COPY_HOWS:
+            for rep in range(reps):
+                a, b = _dyadic(rng, 1.5, 4), _dyadic(rng, 1, 3)
+                v_orig, v_copy = rng.uniform(0.4, 0.9), rng.uniform(1.1, 1.8)
+                seed = rng.torch_seed()
+                ctx.case(f"PC:{sname}:{how}", sample={"scenario": sname, "how": how})
+                ctx.count("prior_copy_cases")
+                try:
+                    run_prior_copy_case(ctx, sname, how, a, b, v_orig, v_copy, seed)
+                except Exception:
+                    import traceback
+                    ctx.broke("correspondence", f"prior-copy:{sname}:{how}", traceback.format_exc())
+
+
 # ------------------------------------------------------------------ (4) priors
 
 def documented_smoothed_box_denominator():
@@ -2355,6 +2593,9 @@ def correspondence(ctx, want_driver=True):
         pl, pr = _guarded(ctx, "priors", lambda: sweep_priors(ctx), E)
         rl, rr = _guarded(ctx, "prior-reload", lambda: sweep_prior_reload(ctx, ctx.rng("prior-reload")), E)
         pl, pr = pl + rl, pr + rr
+        bl, br = _guarded(ctx, "prior-broadcast", lambda: sweep_prior_broadcast(ctx, ctx.rng("prior-broadcast")), E)
+        pl, pr = pl + bl, pr + br
+        _guarded(ctx, "prior-copies", lambda: sweep_prior_copies(ctx, ctx.rng("prior-copies")), None)
         xl, xr = _guarded(ctx, "matrix-priors", lambda: sweep_matrix_priors(ctx, ctx.rng("matrix-priors")), E)
         observation_initialize_float(ctx)
         if want_driver and xl:
@@ -2426,6 +2667,19 @@ def replay(ctx, payload):
         try:
             ok = run_prior_reload_case(sub, case["prior"], case["host"], case["pre"], case["load"], case["post"], case["h1"],
                                        case["h2"], case["xs"], case["seed"])
+        finally:
+            torch.set_default_dtype(torch.float32)
+        return bool(ok) and not sub.failures
+    if k in ("prior-copy", "prior-broadcast"):
+        sub = Ctx2()
+        torch.set_default_dtype(torch.float64)
+        try:
+            if k == "prior-copy":
+                ok = run_prior_copy_case(sub, case["scenario"], case["how"], case["a"], case["b"], case["v_orig"], case["v_copy"], case["seed"])
+            elif case.get("registered"):
+                return True      # registered variant: re-run by the sweep
+            else:
+                ok = run_prior_broadcast_case(sub, case["prior"], case["h"], case["shape"], case["values"])
         finally:
             torch.set_default_dtype(torch.float32)
         return bool(ok) and not sub.failures
